@@ -157,10 +157,16 @@ def manifest_files(root):
     return out
 
 
-def do_save(root, step):
-    """step: dict(edit, force, wm, fmt).  -> (obs, written set)"""
+def do_save(root, step, holder=None):
+    """step: dict(edit, force, wm, fmt).  -> (obs, written set).  With ``holder`` (a dict) ONE loader object
+    is kept across the steps of a sequence instead of a fresh one per step."""
     def go():
-        m = gem.loader(root, TOP, hashes=['SHA1'])
+        if holder is not None and holder.get('m') is not None:
+            m = holder['m']
+        else:
+            m = gem.loader(root, TOP, hashes=['SHA1'])
+            if holder is not None:
+                holder['m'] = m
         if step['edit']:
             p = os.path.join(root, step['edit'])
             with open(p, 'ab') as f:
@@ -183,12 +189,15 @@ def check_W(case, scratch, stats=None):
 
     def viol(check, msg, i, **extra):
         sig = {'check': check, 'part': 'W'}
+        if 'reuse_loader' in case:
+            sig['reuse_loader'] = bool(case['reuse_loader'])
         sig.update(extra)
         out.append({'sig': sig, 'case': case,
                     'message': f'{check}: {msg} (start={case["start"]} step {i}: {case["steps"][i]})'})
+    holder = {} if case.get('reuse_loader') else None
     for i, step in enumerate(case['steps']):
         before = manifest_files(root)
-        o, written, removed = do_save(root, step)
+        o, written, removed = do_save(root, step, holder)
         if stats is not None:
             stats.evaluations += 1
             stats.transitions += 1
@@ -346,12 +355,13 @@ def run_shard(spec, tier, seed, scratch):
     for n in range(1, depth):
         for rest in itertools.product(range(len(alpha)), repeat=n):
             steps = [alpha[first]] + [alpha[i] for i in rest]
-            case = {'part': 'W', 'start': start, 'steps': steps}
-            n0 = stats.counters['W_saves_rewriting']
-            vs = check_W(case, scratch, stats)
-            stats.case(('Wseq', start, first) + rest, nontrivial=stats.counters['W_saves_rewriting'] > n0)
-            for x in vs:
-                stats.violation(x['sig'], x['case'], x['message'])
+            for reuse in (False, True):
+                case = {'part': 'W', 'start': start, 'steps': steps, 'reuse_loader': reuse}
+                n0 = stats.counters['W_saves_rewriting']
+                vs = check_W(case, scratch, stats)
+                stats.case(('Wseq', start, first, reuse) + rest, nontrivial=stats.counters['W_saves_rewriting'] > n0)
+                for x in vs:
+                    stats.violation(x['sig'], x['case'], x['message'])
     return stats
 
 
